@@ -353,8 +353,9 @@ func (p *TxProcessor) VerifyAssetTx(tx *types.Transaction) error {
 			return err
 		}
 		assetId := TransferAssetInfo.AssetId
-		// 分发节点中只能从数据库中查询数据，因此如果在一个区块中发行资产后又对资产进行了操作，在分发节点的执行区块过程中会查询失败。简单起见，直接在这里保证资产发行交易必须稳定
-		issueAcc := p.am.GetCanonicalAccount(tx.From())
+		// The asset must exist in the state the transaction is executed on. Not in the stable state of this node:
+		// which block is stable differs from node to node, so the same block would be valid on one node and invalid on another
+		issueAcc := p.am.GetAccount(tx.From())
 		_, err = issueAcc.GetAssetIdState(assetId)
 		return err
 	default:
@@ -362,8 +363,8 @@ func (p *TxProcessor) VerifyAssetTx(tx *types.Transaction) error {
 	}
 
 	if (assetCode != common.Hash{}) {
-		// 分发节点中只能从数据库中查询数据，因此如果在一个区块中发行资产后又对资产进行了操作，在分发节点的执行区块过程中会查询失败。简单起见，直接在这里保证资产发行交易必须稳定
-		issueAcc := p.am.GetCanonicalAccount(tx.From())
+		// see above: the state of the block, not the stable state of this node
+		issueAcc := p.am.GetAccount(tx.From())
 		_, err := issueAcc.GetAssetCode(assetCode)
 		return err
 	}
